@@ -118,7 +118,27 @@ pub fn build_subjects(ctx: &Ctx, thorough: bool, max_programs: usize) -> Vec<Sub
         let (cname, cfg) = &cfgs[ci];
         make_subject(ctx, prog, ivs, cname, cfg, if thorough { ivs.len() } else { 1 })
     });
-    built.into_iter().flatten().collect()
+    let mut out: Vec<Subject> = built.into_iter().flatten().collect();
+    if !thorough {
+        // the quick tier still touches the configuration axes that change the vanishing polynomial:
+        // narrow routing (different partial-product chunking), 1 and 3 challenges, quotient factor 7
+        // (the only factor for which the honest prover really truncates), zero knowledge
+        let lat = config_lattice(2);
+        for (pi, cname) in [(0usize, "routed25"), (2, "chal1"), (3, "qdf7"), (0, "chal3"), (1, "zk")] {
+            if pi >= progs.len() {
+                continue;
+            }
+            if let Some((_, cfg)) = lat.iter().find(|(n, _)| n == cname) {
+                let mut cfg = cfg.clone();
+                cfg.fri_config.proof_of_work_bits = 6;
+                fix_security(&mut cfg);
+                if let Some(s) = make_subject(ctx, &progs[pi].0, &progs[pi].1, cname, &cfg, 1) {
+                    out.push(s);
+                }
+            }
+        }
+    }
+    out
 }
 
 /// Builds one subject: the circuit, its satisfaction context, and the honest assignment of every
@@ -392,8 +412,10 @@ pub fn run(ctx: &Ctx) -> i32 {
         let classes: Vec<usize> = class_size.iter().filter(|(_, n)| **n >= 2).map(|(r, _)| *r).collect();
         for bi in 0..(if full || !thorough { s.bases.len() } else { 1 }) {
             cases.push((si, bi, Corr::None, Strat::S0));
-            // every cell and every virtual target, individually
-            for i in 0..n_targets {
+            // every cell and every virtual target, individually (quick tier: every 2nd target for the
+            // extra configuration subjects)
+            let tstep = if !thorough && s.cfg_name != "std" { 2 } else { 1 };
+            for i in (0..n_targets).step_by(tstep) {
                 for k in &kinds {
                     cases.push((si, bi, Corr::Cell(i, *k), Strat::S0));
                 }
